@@ -22,7 +22,7 @@ from ..xplore import HarnessError, explore, run_once
 from .. import opstub
 from ..refs import ecsig
 from ..simdev.base import World, HidStub, SW
-from ..simdev.uiadmin import (UiAdmin, MODE_BOOTLOADER, MODE_SIGNER, MODE_UI_HEARTBEAT,
+from ..simdev.uiadmin import (UiAdmin, DropLink, MODE_BOOTLOADER, MODE_SIGNER, MODE_UI_HEARTBEAT,
                               MODE_DASHBOARD, DOCUMENTED_PATHS, pin_policy_ok)
 
 # non-ASCII kinds: \u00ba (masculine ordinal) and \u00b5 (micro) are "letters" for str.isalpha and take
@@ -88,6 +88,8 @@ class LazyDev(UiAdmin):
         self.dim = {}
         self.pin_known = False
         self.operator = None
+        self.key_fault = None        # (index of the key exchange, kind)
+        self.keys_served = 0
 
     def snapshot(self):
         return (self.mode, self.onboarded, self.unlocked, bytes(self.pin), self.onboard_performed,
@@ -167,6 +169,20 @@ class LazyDev(UiAdmin):
             r = self.q_onboarded()
             v = self.signer_version
             return bytes([0x80, r[1], v[0], v[1], v[2]])
+        if apdu[0] == 0x80 and apdu[1] == 0x04 and self.cfg["cmd"] == "pubkeys" and \
+                self.cfg["output"] and self.key_fault is None:
+            # every key exchange may be the one that fails
+            self.ctx.state(("dev", self.cfg["id"], self.snapshot(), self.operator.snapshot(),
+                            "pubkey", self.keys_served))
+            c = self.ctx.choose(4, "pubkey")
+            if c:
+                self.key_fault = (self.keys_served, ["ok", "status-error", "link-drop", "invalid-key"][c])
+                if c == 1:
+                    self.sw(0x6A8F)
+                if c == 2:
+                    raise DropLink()
+                return b"\x04" + b"\x00" * 63 + b"\x05"       # 65 bytes, not a curve point
+            self.keys_served += 1
         return UiAdmin.signer_app(self, apdu)
 
 
@@ -302,7 +318,8 @@ class C18(Check):
     id = "C18"
     level = "model_checking"
     rule = ("full lazy choice tree (no deviation bound) of device decisions {mode x6, onboarded x3, "
-            "echo x2, unlock x2, new PIN x2, onboarding answer x2} and operator inputs {stdin lines "
+            "echo x2, unlock x2, new PIN x2, onboarding answer x2, each of the six key exchanges {ok, status "
+            "error, link drop, invalid key}} and operator inputs {stdin lines "
             "<= 3 over 8 answers (incl. a last line without newline; thorough: CRLF ending, very long line) + end of file "
             "(then \"\" for ever; a tool that keeps reading is cut after 3 reads) + walk away, at every "
             "position; getpass answers <= 3 over 5 PIN kinds + EOFError + walk away, "
@@ -772,31 +789,59 @@ class C18(Check):
                 pre = dims.get("mode") == "signer" and dev.onboarded and (dev.unlocked or not sgx)
             else:
                 pre = bool(unlock_answers and unlock_answers[-1]) and in_signer
-            if pre and not r.gone:
+            if pre and not r.gone and dev.key_fault is None:
                 if not exit_ok:
                     V("carried-out", "pubkeys-not-delivered", {"end": end, "shape": shape, "out": r.out[-300:]},
                       {"exit": 0})
                 elif cfg["output"] and (txt is None or js is None):
                     V("carried-out", "pubkeys-files-missing", {"files": sorted(o["files"])},
                       {"files": ["out.txt", "out.json"]})
-            if js is not None:
+            want = {p: k.hex() for p, k in want_keys.items()}
+
+            def file_state(content, old, good):
+                if content is None:
+                    return "absent"
+                if old is not None and content == old:
+                    return "old"
+                return "new" if good(content) else "other"
+
+            def json_good(c):
                 try:
-                    d = json.loads(js)
+                    return json.loads(c) == want
                 except Exception:   # noqa
-                    d = None
-                want = {p: k.hex() for p, k in want_keys.items()}
-                if exit_ok:
-                    if d != want:
-                        V("pubkeys-content", "json", {"json": d}, {"json": want})
-                elif isinstance(d, dict) and any(p in want and v != want[p] for p, v in d.items()):
-                    # a run that ends with an error owes no file; what it wrote must not be wrong
-                    V("pubkeys-content", "json", {"json": d}, {"json": want})
-            if txt is not None and exit_ok:
-                self.judge_text(txt, want_keys, V, "file")
-            if exit_ok and not cfg["output"]:
-                self.judge_text(r.out, want_keys, V, "stdout")
-            if exit_ok and cfg["output"] and (txt is None or js is None):
-                V("false-success", "pubkeys", {"files": sorted(o["files"])}, {"files": ["out.txt", "out.json"]})
+                    return False
+            raw_txt, raw_js = o["files"].get("out.txt"), o["files"].get("out.json")
+            old_txt, old_js = (STALE_TXT, STALE_JSON) if cfg.get("stale") else (None, None)
+            st_txt = file_state(raw_txt, old_txt, lambda c: self.text_ok(c, want_keys) is None)
+            st_js = file_state(raw_js, old_js, json_good)
+            if exit_ok:
+                if js is not None and st_js != "new":
+                    V("pubkeys-content", "json", {"json": js[:600]}, {"json": want})
+                if txt is not None and st_txt != "new":
+                    V("pubkeys-content", "text-file", {"problem": self.text_ok(txt, want_keys)},
+                      {"every_path_with": "compressed device key"})
+                if not cfg["output"]:
+                    bad = self.text_ok(r.out, want_keys)
+                    if bad:
+                        V("pubkeys-content", "text-stdout", {"problem": bad},
+                          {"every_path_with": "compressed device key"})
+                if cfg["output"] and (txt is None or js is None):
+                    V("false-success", "pubkeys", {"files": sorted(o["files"])},
+                      {"files": ["out.txt", "out.json"]})
+            elif cfg["output"]:
+                # a run that ends with an error owes no file, but what is at the output paths
+                # afterwards is what was there before (nothing, or the earlier run's pair) or the
+                # complete correct pair: never a truncated / half-written / mixed pair
+                fault = dev.key_fault[1] if dev.key_fault else None
+                unchanged = {"absent", "old"}
+                okpair = (st_txt in unchanged and st_js in unchanged) or (st_txt == "new" and st_js == "new")
+                if fault == "invalid-key":
+                    stats.dont_care += 1          # a device outside its protocol
+                elif not okpair:
+                    V("pubkeys-files", "after-failure:%s" % ("stale" if cfg.get("stale") else "fresh"),
+                      {"out.txt": st_txt, "out.json": st_js, "fault": dev.key_fault,
+                       "txt_bytes": None if raw_txt is None else len(raw_txt)},
+                      {"each_file": "as before the run, or the complete correct pair"})
         # ---- observation class ---------------------------------------------------------
         stats.observe((cmd, cfg["platform"], r.code, r.gone, tuple(shape), tuple(sorted(o["files"])),
                        dev.onboarded, dev.unlocked, dev.mode, bool(change_pins), anypin))
@@ -805,17 +850,16 @@ class C18(Check):
                       "apdu_shape": ["%02x" % c if isinstance(c, int) else c for c in shape]}, cap=4)
 
     @staticmethod
-    def judge_text(text, want_keys, V, where):
-        """every documented path appears on a line together with the compressed form of the
-        device's key for that path"""
+    def text_ok(text, want_keys):
+        """None when every documented path appears on a line together with the compressed form of
+        the device's key for that path; otherwise the first path that does not"""
         for name, path in NAMES.items():
             pub = want_keys[path]
             comp = bytes([2 + (pub[64] & 1)]) + pub[1:33]
             hit = [ln for ln in text.split("\n") if path in ln.split() or (" " + path + " ") in ln]
             if not any(comp.hex() in ln for ln in hit):
-                V("pubkeys-content", "text-%s" % where, {"lines": hit[:3]},
-                  {"path": path, "compressed_key": comp.hex()})
-                return
+                return {"path": path, "compressed_key": comp.hex(), "lines": hit[:3]}
+        return None
 
 
 CHECK = C18
